@@ -328,7 +328,9 @@ func TestC20Routing(t *testing.T) {
 		upgrade := rapid.SampledFrom([]string{"", "", "", "websocket", "websocket", "h2c", "WebSocket", "foo"}).Draw(t, "upgrade")
 		accept := rapid.SampledFrom([]string{"", "application/nostr+json", "application/nostr+json", "application/nostr+json", "text/html", "application/json", "*/*",
 			"application/nostr+json; q=0.9", "Application/Nostr+JSON", " application/nostr+json", "application/nostr+json, text/html", "application/nostr+jsonx"}).Draw(t, "accept")
-		desc := map[string]any{"method": method, "path": path, "upgrade": upgrade, "accept": accept, "with_doc": doc != nil, "with_default": withDefault}
+		origin := rapid.SampledFrom([]string{"", "", "https://client.example", "null"}).Draw(t, "origin")
+		conn := rapid.SampledFrom([]string{"Upgrade", "Upgrade", "keep-alive", ""}).Draw(t, "connection")
+		desc := map[string]any{"method": method, "path": path, "upgrade": upgrade, "connection": conn, "accept": accept, "origin": origin, "with_doc": doc != nil, "with_default": withDefault}
 		exactAccept := accept == "application/nostr+json"
 		nearMiss := !exactAccept && strings.Contains(strings.ToLower(accept), "application/nostr+json") && accept != "application/nostr+jsonx"
 
@@ -376,7 +378,7 @@ func TestC20Routing(t *testing.T) {
 			return ""
 		}
 
-		if upgrade != "" && strings.EqualFold(upgrade, "websocket") && method == "GET" {
+		if upgrade != "" && strings.EqualFold(upgrade, "websocket") && method == "GET" && conn == "Upgrade" {
 			// real WebSocket dial through the mux
 			srv := httptest.NewServer(mux)
 			defer srv.Close()
@@ -409,10 +411,15 @@ func TestC20Routing(t *testing.T) {
 		req := httptest.NewRequest(method, path, nil)
 		if upgrade != "" {
 			req.Header.Set("Upgrade", upgrade)
-			req.Header.Set("Connection", "Upgrade")
+			if conn != "" {
+				req.Header.Set("Connection", conn)
+			}
 		}
 		if accept != "" {
 			req.Header.Set("Accept", accept)
+		}
+		if origin != "" {
+			req.Header.Set("Origin", origin)
 		}
 		w := httptest.NewRecorder()
 		mux.ServeHTTP(w, req)
